@@ -153,7 +153,7 @@ def monitor(impl_lines):
     every well-formed stream opened with a reachable cluster is served"""
     bad = []
     for k, l in enumerate(impl_lines):
-        if "BLOCKED" in l or "locked=1" in l or " panic " in l or "crashed" in l or l.startswith("WC stalled") or l.startswith("WC no-"):
+        if "BLOCKED" in l or "locked=1" in l or " panic " in l or "crashed" in l or l.startswith("WC stalled") or l.startswith("WC no-") or l.startswith("H dropped"):
             bad.append(k)
     return bad
 
